@@ -12,6 +12,7 @@
 import HugrVerif.Proofs.Serial
 import HugrVerif.Proofs.SerialNormal
 import HugrVerif.Proofs.SerialOps
+import HugrVerif.Proofs.StoreWalkSorted
 import HugrVerif.SerialCodecs
 import HugrVerif.Props.C03
 
@@ -215,6 +216,58 @@ theorem json_fixed_point_ops (rootOp : Op) (m : Meta) (s : St Op) (hr : C04.Reac
     (hgood : ∀ i d, getNode s i = .ok d → GoodOp N f d.op) : JsonFixedPoint (opsCodec (f + 1)) s :=
   haveI : Inhabited Op := ⟨.input []⟩
   json_fixed_point rootOp m s hr (opsCodec (f + 1)) (Op.norm Value.norm) (GoodOp N f) (opsCodec_laws N f) hgood
+
+/-! ### the renumbering -/
+
+theorem indexOf_mono : ∀ (l : List Nat), l.Pairwise (· < ·) → ∀ (k i j a b : Nat),
+    indexOf i l k = some a → indexOf j l k = some b → i < j → a < b := by
+  intro l
+  induction l with
+  | nil => intro _ k i j a b h; simp [indexOf] at h
+  | cons x t ih =>
+    intro hp k i j a b hi hj hlt
+    have hxt : ∀ y ∈ t, x < y := (List.pairwise_cons.mp hp).1
+    unfold indexOf at hi hj
+    by_cases hxi : x = i
+    · simp only [hxi, if_true] at hi
+      have hxj : x ≠ j := by omega
+      simp only [hxj, if_false] at hj
+      obtain ⟨h1, _, _⟩ := indexOf_spec j t (k + 1) b hj
+      injection hi with hi
+      omega
+    · simp only [hxi, if_false] at hi
+      by_cases hxj : x = j
+      · -- j is the head, i is further down: i > j, against i < j
+        obtain ⟨h1, h2, h3⟩ := indexOf_spec i t (k + 1) a hi
+        have : i ∈ t := List.mem_of_getElem? h3
+        have := hxt i this
+        omega
+      · simp only [hxj, if_false] at hj
+        exact ih (List.pairwise_cons.mp hp).2 (k + 1) i j a b hi hj hlt
+
+/-- **The renumbering of `_to_serial` is order-preserving whenever indices respect the hierarchy**
+    (every parent has a smaller index than its children and children lists are in increasing index order:
+    true of every HUGR in which no freed index has been reused out of order).  Then `_hierarchy_order()`
+    is the list of live nodes in index order, and `rekey` is strictly monotone.  The open finding F03
+    is exactly the complement: after such a reuse no parents-first document can keep index order. -/
+theorem renumbering_order_preserving (rootOp : Ω) (m : Meta) (s : St Ω) (hr : C04.ReachT rootOp m s)
+    (hm : IdxMono s) :
+    hierarchyOrder s = .ok (liveNodes s) ∧
+    ∀ i j a b, rekey (liveNodes s) i = .ok a → rekey (liveNodes s) j = .ok b → i < j → a < b := by
+  obtain ⟨_, hh, hroot, ha⟩ := C04.reachT_inv rootOp m s hr
+  refine ⟨hierarchyOrder_sorted hh hroot ha hm, ?_⟩
+  intro i j a b hi hj hlt
+  unfold rekey at hi hj
+  cases h1 : indexOf i (liveNodes s) 0 with
+  | none => simp [h1] at hi
+  | some a' =>
+    cases h2 : indexOf j (liveNodes s) 0 with
+    | none => simp [h2] at hj
+    | some b' =>
+      simp only [h1, Except.ok.injEq] at hi
+      simp only [h2, Except.ok.injEq] at hj
+      subst hi; subst hj
+      exact indexOf_mono _ (liveNodes_sorted s) 0 i j a' b' h1 h2 hlt
 
 /-- Non-vacuity / regression: a store with an order link, a multi-link, metadata and a reused
     index is a fixed point of the model's JSON round trip. -/
